@@ -337,7 +337,7 @@ def make_cases(ctx) -> List[Dict[str, Any]]:
     rng = ctx.rng
     cases = []
     quick = ctx.tier == "quick"
-    reps = 3 if quick else 30
+    reps = 4 if quick else 30
     maxlen = 12 if quick else 30
     n = 0
     for rep in range(reps):
